@@ -14,10 +14,13 @@ A compose description travels as a JSON-able *spec* (also the wire format of the
                "variants": [variant, ...]}
     snap() additionally reports "parent": uid of v.parent | None for every variant.
 
-    gen(rng, tier)      -> spec      generator following the quantifier of C01
-    build(spec)         -> ComposeInfo   through the public API (attribute assignment + add()); raw=True files the
-                                     variants directly in the dicts (no validation at add time) so that the *writer's*
-                                     refusals can be observed
+    gen(rng, tier)      -> spec      generator following the quantifier of C01 (path values incl. boundary spellings)
+    gen_style(rng)      -> style     one of the equivalent ways of filling the objects (assign vs in-place add/update of
+                                     `arches`, of the path dicts; add(v) before or after v's children)
+    build(spec, raw, style) -> ComposeInfo   through the public API; raw=True files the variants directly in the dicts
+                                     (no validation at add time) so that the *writer's* refusals can be observed
+    build_interleaved(specs, ..) -> [ComposeInfo]  several constructions interleaved in one process
+    same_description(spec, snapshot) -> None | (observed, expected)   what the objects hold vs what was put in
     snap(ci)            -> spec'     every public attribute of the object graph
     norm(spec)          -> spec'     what a write/read cycle is documented to keep (oracle side, independent of the model)
     canon(spec)         -> spec'     order-insensitive form (dicts/sets have no order): children sorted by key, arches sorted
@@ -67,6 +70,19 @@ class Gen(object):
         return {"name": r.choice(NAME_POOL), "short": r.choice(SHORT_POOL), "version": r.choice(VERSION_POOL),
                 "type": self.rr(self.T["release_types"], salt), "is_layered": False, "internal": r.random() < 0.3}
 
+    def path_value(self, base):
+        """a path value: mostly plain, otherwise one of the boundary spellings (paths are opaque strings to the format)"""
+        r = self.rng
+        if r.random() < 0.6:
+            return base
+        k = self.pathn = getattr(self, "pathn", 0) + 1
+        shapes = [lambda b: b + "/", lambda b: b + "//", lambda b: b.replace("/", "//", 1), lambda b: "./" + b, lambda b: "/" + b,
+                  lambda b: b + "/.", lambda b: "../" + b, lambda b: " " + b, lambda b: b + " ", lambda b: b.replace("/", " / ", 1),
+                  lambda b: b + "/\xe9t\xe9/\u65e5\u672c", lambda b: b + "/\U0001f600", lambda b: b + "/" + "x" * 300, lambda b: "/",
+                  lambda b: "//", lambda b: b + '/q"uo\\te', lambda b: b + "\t", lambda b: b.upper(), lambda b: b + "/%(arch)s/$basearch",
+                  lambda b: b + "\n", lambda b: "0", lambda b: " "]
+        return shapes[k % len(shapes)](base)
+
     def variant(self, parent, depth, maxdepth, counter):
         r = self.rng
         counter[0] += 1
@@ -106,7 +122,7 @@ class Gen(object):
             d = v["paths"].setdefault(cat, {})
             for a in r.sample(ARCH_POOL, r.randint(1, 4)) + [r.choice(arches)]:
                 roll = r.random()
-                d[a] = "" if roll < 0.12 else "%s/%s/%s" % (uid, a, cat)
+                d[a] = "" if roll < 0.12 else self.path_value("%s/%s/%s" % (uid, a, cat))
         if depth < maxdepth and not (dashed and r.random() < 0.7):
             for _ in range(r.choice([0, 0, 1, 2, 3] if depth < 3 else [0, 1])):
                 v["variants"].append(self.variant(v, depth + 1, maxdepth, counter))
@@ -158,10 +174,25 @@ def walk(spec):
 
 
 # ------------------------------------------------------------------------------------------------- real side
-def build(spec, raw=False):
-    """assemble the object graph through the public API; raw=True bypasses add() (direct dict insertion)"""
+STYLES = {"arches": ["assign", "add", "update", "ior"],          # how the documented set attribute is filled
+          "paths": ["update", "item", "assign"],                   # how the documented path dicts are filled
+          "order": ["parent-first", "kids-first"],                 # add(v) before or after v's own children are added
+          "release": ["attrs"]}
+DEFAULT_STYLE = {"arches": "assign", "paths": "update", "order": "parent-first", "release": "attrs"}
+
+
+def gen_style(rng):
+    """one way of using the public API to put a description into the objects (all equivalent by the documentation)"""
+    return dict((k, rng.choice(v)) for k, v in sorted(STYLES.items()))
+
+
+def _build_steps(spec, raw, style):
+    """generator: performs the construction step by step (yields between the steps so that two constructions can be
+    interleaved in one process); the finished ComposeInfo is the generator's return value"""
     from productmd.composeinfo import ComposeInfo, Variant
+    st = dict(DEFAULT_STYLE, **(style or {}))
     ci = ComposeInfo()
+    yield
     c = spec["compose"]
     ci.compose.id, ci.compose.type, ci.compose.date, ci.compose.respin = c["id"], c["type"], c["date"], c["respin"]
     ci.compose.label, ci.compose.final = c["label"], c["final"]
@@ -173,30 +204,101 @@ def build(spec, raw=False):
     fill(ci.release, spec["release"], True)
     if spec.get("base_product") is not None:
         fill(ci.base_product, spec["base_product"], False)
+    yield
+
+    def place(container, parent, s, v):
+        if raw or (s["key"] != s["id"] and parent is not None):
+            container.variants[s["key"]] = v
+            if parent is not None:
+                v.parent = parent
+        elif s["key"] != s["id"]:
+            container.add(v, variant_id=s["key"])
+        else:
+            container.add(v)
 
     def mk(vs, parent):
         container = ci.variants if parent is None else parent
         for s in vs:
             v = Variant(ci)
             v.id, v.uid, v.name, v.type = s["id"], s["uid"], s["name"], s["type"]
-            v.arches = set(s["arches"])
+            if st["arches"] == "assign":
+                v.arches = set(s["arches"])
+            elif st["arches"] == "add":
+                for a in s["arches"]:
+                    v.arches.add(a)
+            elif st["arches"] == "update":
+                v.arches.update(s["arches"])
+            else:
+                v.arches |= set(s["arches"])
+            yield
             for cat, d in s["paths"].items():
                 if not hasattr(v.paths, cat):
                     setattr(v.paths, cat, {})
-                getattr(v.paths, cat).update(d)
+                if st["paths"] == "update":
+                    getattr(v.paths, cat).update(d)
+                elif st["paths"] == "item":
+                    for a, p in d.items():
+                        getattr(v.paths, cat)[a] = p
+                else:
+                    setattr(v.paths, cat, dict(d))
             if s.get("release") is not None:
                 fill(v.release, s["release"], True)
-            if raw or (s["key"] != s["id"] and parent is not None):
-                container.variants[s["key"]] = v
-                if parent is not None:
-                    v.parent = parent
-            elif s["key"] != s["id"]:
-                container.add(v, variant_id=s["key"])
+            yield
+            if st["order"] == "kids-first" and not raw:
+                # the subtree is assembled first; the variant needs its parent pointer for nothing before add()
+                for _ in mk(s["variants"], v):
+                    yield
+                place(container, parent, s, v)
             else:
-                container.add(v)
-            mk(s["variants"], v)
-    mk(spec["variants"], None)
+                place(container, parent, s, v)
+                for _ in mk(s["variants"], v):
+                    yield
+            yield
+    for _ in mk(spec["variants"], None):
+        yield
     return ci
+
+
+def _drive(gens):
+    """run generators round-robin to completion; -> their return values"""
+    out = [None] * len(gens)
+    live = list(range(len(gens)))
+    while live:
+        for i in list(live):
+            try:
+                next(gens[i])
+            except StopIteration as e:
+                out[i] = e.value
+                live.remove(i)
+    return out
+
+
+def build(spec, raw=False, style=None):
+    """assemble the object graph through the public API (attribute assignment / in-place filling of the documented
+    containers, add()); `style` picks among equivalent ways of doing so (see STYLES); raw=True bypasses add()
+    (direct dict insertion) so that the *writer's* refusals can be observed"""
+    return _drive([_build_steps(spec, raw, style)])[0]
+
+
+def build_interleaved(specs, raws=None, styles=None):
+    """several descriptions assembled in ONE process with their construction steps interleaved (hidden shared state
+    between objects — class-level or default-argument containers, caches — shows as cross-talk)"""
+    n = len(specs)
+    raws = raws or [False] * n
+    styles = styles or [None] * n
+    return _drive([_build_steps(specs[i], raws[i], styles[i]) for i in range(n)])
+
+
+def same_description(spec, snapshot, force_layered=False):
+    """None if the snapshot of an object graph holds exactly the description `spec` (as put in, before any write),
+    else the first difference.  Representation only: dicts/sets unordered, an absent category = an empty dict."""
+    a, b = canon(strip_parent(spec)), canon(strip_parent(snapshot))
+    for side in (a, b):
+        for v, _ in walk(side):
+            v["paths"] = dict((c, t) for c, t in v["paths"].items() if t)
+            if force_layered and v["type"] == LP and v["release"] is not None:
+                v["release"]["is_layered"] = True
+    return None if a == b else (b, a)
 
 
 def _rel(r, full):
